@@ -35,9 +35,9 @@ ASSUMPTIONS = [
 ]
 MIN_EVENTS = {
     'quick': {'ledger_frames': 3000, 'ledger_credit_grants': 300, 'stream_checks': 150, 'raw_cases': 40, 'raw_multi_cases': 20,
-              'max_credit_cases': 1},
+              'max_credit_cases': 1, 'raw_multi_batch_cases': 15, 'last_words_checks': 100},
     'thorough': {'ledger_frames': 100000, 'ledger_credit_grants': 10000, 'stream_checks': 3000, 'raw_cases': 800,
-                 'raw_multi_cases': 300, 'max_credit_cases': 4},
+                 'raw_multi_cases': 300, 'max_credit_cases': 4, 'raw_multi_batch_cases': 100, 'last_words_checks': 2000},
 }
 CASE_TIMEOUT = 300
 
@@ -214,6 +214,31 @@ async def b2b(case, r: R):
                 await vloop.vwait(end.drain(), 60)
             except vloop.Hang:
                 r.bad(f'coc/drain-hang/{mode}', f'drain() pending with everything delivered; credits={end.credits}')
+    # last words: write, wait for drain(), disconnect — the usual way to finish a transfer. What was
+    # written before the drain() returned must all reach the peer's sink.
+    for pi, p in enumerate(plans):
+        if r.violations:
+            break
+        d = rng.choice(['c2s', 's2c'])
+        end, got, peer_spec = (p[0], p[2], spec_s) if d == 'c2s' else (p[1], p[3], spec_c)
+        size = min(peer_spec['mtu'], rng.choice([1, 23, 100, 700, 3000]))
+        data = make_data(pi * 2 + (d == 's2c'), len(sent[(pi, d)]), size)
+        end.write(data)
+        sent[(pi, d)] += data
+        try:
+            await vloop.vwait(end.drain())
+            await vloop.vwait(end.disconnect())
+        except vloop.Hang:
+            r.bad(f'coc/drain-hang/{mode}/last-words', f'write({size}); drain(); disconnect() pending at T_v; '
+                                                       f'client={spec_c} server={spec_s}')
+            continue
+        await rg.quiesce()
+        r.ev('last_words_checks')
+        r.ev('oracle_evals')
+        if bytes(got) != bytes(sent[(pi, d)]):
+            r.bad(f'coc/stream/lost/after-drain-and-disconnect/{mode}',
+                  f'{d}: write({size}); await drain(); await disconnect(): the peer sink has {len(got)} of '
+                  f'{len(sent[(pi, d)])} bytes; client={spec_c} server={spec_s}')
     for dev in (0, 1):
         txs = rl.coc_ledger(rg.boundary_log, dev, r)
         for t in txs:
@@ -507,7 +532,33 @@ async def raw_multi(case, r: R):
         ident[0] = ident[0] % 255 + 1
         return ident[0]
 
-    for my_cid in perm:
+    # enhanced variant: ONE Credit Based Connection Request carrying all CIDs, in an order that is neither
+    # ascending nor (often) the iteration order of a set of them; the response lists bumble's CIDs positionally
+    batch = rng.random() < 0.4
+    if batch:
+        if rng.random() < 0.6:
+            perm = rng.sample(range(0x40, 0x80), n)
+        for my_cid in perm:
+            eps.append(RawCoc(raw, rc.handle, my_cid, 256, 64))
+        raw.send(rc.handle, rl.LE_SIG, rl.sig(rl.CODE_ECOC_REQ, nid(),
+                                              struct.pack('<HHHH', psm, 256, 64, 0) + b''.join(struct.pack('<H', c) for c in perm)))
+        rsp = await raw.wait_for(lambda h, cid, p: cid == rl.LE_SIG and p[0] == rl.CODE_ECOC_RSP)
+        r.ev('oracle_evals')
+        if rsp is None:
+            r.bad('coc/raw/no-connection-response/enhanced', 'no response to a credit based connection request')
+            return
+        body = rsp[2][4:]
+        mtu, mps, cr, result = struct.unpack_from('<HHHH', body, 0)
+        dcids = [struct.unpack_from('<H', body, 8 + 2 * i)[0] for i in range((len(body) - 8) // 2)]
+        if result != 0 or len(dcids) != n or 0 in dcids or len(set(dcids)) != n:
+            r.bad('coc/raw/refused/enhanced/multi', f'request for cids {perm} answered result {result} dcids {dcids}')
+            return
+        for ep, dcid in zip(eps, dcids):
+            ep.peer_cid, ep.peer_mtu, ep.peer_mps, ep.tx_credits = dcid, mtu, mps, cr
+        r.ev('raw_multi_batch_cases')
+        if list(set(perm)) != perm:
+            r.ev('raw_multi_batch_list_order_differs_from_set_order')
+    for my_cid in ([] if batch else perm):
         ep = RawCoc(raw, rc.handle, my_cid, 256, 64)
         raw.send(rc.handle, rl.LE_SIG, rl.sig(rl.CODE_LE_COC_REQ, nid(), struct.pack('<HHHHH', psm, my_cid, 256, 64, 0)))
         rsp = await raw.wait_for(lambda h, cid, p: cid == rl.LE_SIG and p[0] == rl.CODE_LE_COC_RSP)
